@@ -93,7 +93,11 @@ fn marker(aseed: u16, layer: usize, kind: u8) -> String {
 }
 
 fn normalise_own(own: u16, update: bool) -> u16 {
-    let mut o = own & 0xff;
+    // the reserved-substring label is a rare kind: bits 7..9 must all be set
+    let mut o = own & 0x7f;
+    if (own >> 7) & 7 == 7 {
+        o |= bit(K_RESV);
+    }
     if o & bit(K_DUP) != 0 {
         o |= bit(K_NOTE);
     }
@@ -292,16 +296,13 @@ fn kinds_class(planted: &[Planted], uris: &[String]) -> String {
             ks.insert(KIND_NAMES[p.kind as usize]);
         }
     }
+    if ks.contains("resv") {
+        return "reserved-substring-label".into();
+    }
     match ks.len() {
         0 => "none".into(),
         1 => ks.iter().next().unwrap().to_string(),
-        _ => {
-            if ks.contains("resv") {
-                "mixed+resv".into()
-            } else {
-                "mixed".into()
-            }
-        }
+        _ => "mixed".into(),
     }
 }
 
@@ -312,6 +313,7 @@ struct Checked {
 
 /// The positive oracle on one signed output.
 fn check_output(
+    soft: &Soft,
     run: &Run,
     tag: &str,
     kind: &str,
@@ -376,13 +378,27 @@ fn check_output(
             let place = sdk::find_sub(&store_sdk, p.marker.as_bytes())
                 .and_then(|pos| jw::walk_store(&store_sdk).ok().and_then(|bx| jw::box_at(&bx, pos).map(|i| bx[i].path.clone())))
                 .unwrap_or_else(|| "outside the store".into());
-            return Err(Fail::new(
-                format!("C20:{tag}-redacted-marker-present:{}", KIND_NAMES[p.kind as usize]),
-                format!("payload marker {} of redacted assertion {} still occurs in the output (in box {place})", p.marker, p.uri),
+            let context: String = sdk::find_sub(&store_sdk, p.marker.as_bytes())
+                .map(|pos| store_sdk[pos.saturating_sub(90)..(pos + p.marker.len() + 50).min(store_sdk.len())].iter().map(|b| if b.is_ascii_graphic() || *b == b' ' { *b as char } else { '.' }).collect())
+                .unwrap_or_default();
+            let own_path = p.uri.trim_start_matches("self#jumbf=/");
+            let pclass = if place.starts_with(own_path) {
+                "assertion-box-still-present"
+            } else if place.contains("/c2pa.assertions/c2pa.ingredient") {
+                "copied-into-ingredient-assertion-of-another-manifest"
+            } else if place == "outside the store" {
+                "outside-the-store"
+            } else {
+                "elsewhere-in-the-store"
+            };
+            soft.borrow_mut().push(Fail::new(
+                format!("C20:redacted-marker-present:{}:{pclass}", KIND_NAMES[p.kind as usize]),
+                format!("[{tag}] payload marker {} of redacted assertion {} still occurs in the output (in box {place}; context: {context})", p.marker, p.uri),
             ));
+            continue;
         }
         if !redacted.contains(&p.uri) && !o {
-            return Err(Fail::new(
+            soft.borrow_mut().push(Fail::new(
                 format!("C20:{tag}-unredacted-marker-missing:{}", KIND_NAMES[p.kind as usize]),
                 format!("payload marker {} of assertion {} (never redacted) no longer occurs in the output; redacted so far {redacted:?}", p.marker, p.uri),
             ));
@@ -441,7 +457,35 @@ fn asset(kind: &str, aseed: u16) -> vh::assets::Synth {
 
 const BAD_NAMES: [&str; 7] = ["none", "actions", "hard-binding", "own-assertion", "unknown-assertion", "manifest-not-in-store", "wrong-manifest"];
 
+type Soft = std::cell::RefCell<Vec<Fail>>;
+
+/// Marker findings do not end a case: everything else is still checked, and an unregistered failure is reported in
+/// preference to a registered one.
+fn resolve(run: &Run, hard: CaseResult, soft: Soft) -> CaseResult {
+    let mut all: Vec<Fail> = soft.into_inner();
+    if let Err(f) = hard {
+        all.insert(0, f);
+    }
+    if all.is_empty() {
+        return Ok(());
+    }
+    let pos = all.iter().position(|f| !run.is_known(&f.signature)).unwrap_or(0);
+    Err(all.swap_remove(pos))
+}
+
 fn judge_chain(run: &Run, c: &Case) -> CaseResult {
+    let soft = Soft::default();
+    let r = judge_chain_inner(run, c, &soft);
+    resolve(run, r, soft)
+}
+
+fn judge_merge(run: &Run, c: &MergeCase) -> CaseResult {
+    let soft = Soft::default();
+    let r = judge_merge_inner(run, c, &soft);
+    resolve(run, r, soft)
+}
+
+fn judge_chain_inner(run: &Run, c: &Case, soft: &Soft) -> CaseResult {
     if c.layers.len() < 2 {
         return Ok(());
     }
@@ -466,7 +510,7 @@ fn judge_chain(run: &Run, c: &Case) -> CaseResult {
     };
     let mut planted: Vec<Planted> = vec![];
     let mut redacted: BTreeSet<String> = BTreeSet::new();
-    let chk = check_output(run, "base", kind, fmt, &base, &[], &empty, &planted, &redacted, &empty)?;
+    let chk = check_output(soft, run, "base", kind, fmt, &base, &[], &empty, &planted, &redacted, &empty)?;
     match planted_of(fmt, &base, chk.chain.last().unwrap(), c.aseed, 0, own0) {
         Ok(p) => planted.extend(p),
         Err(e) => {
@@ -566,8 +610,8 @@ fn judge_chain(run: &Run, c: &Case) -> CaseResult {
             Ok(Ok(b)) => b,
             Ok(Err(e)) => {
                 return Err(Fail::new(
-                    format!("C20:allowed-redaction-sign-error:{class}:{}", if layer.update { "update" } else { "edit" }),
-                    format!("signing layer {li} with allowed redactions {req:?} failed: {e}"),
+                    format!("C20:allowed-redaction-sign-error:{class}"),
+                    format!("signing layer {li} ({}) with allowed redactions {req:?} failed: {e}", if layer.update { "Update" } else { "Edit" }),
                 ))
             }
             Err(p) => return Err(Fail::new(format!("C20:sign-panic:{}", vh::core::panic_site(&p)), p)),
@@ -579,7 +623,7 @@ fn judge_chain(run: &Run, c: &Case) -> CaseResult {
             }
         }
         total_red += req.len();
-        let chk = check_output(run, "chain", kind, fmt, &bytes, &req, &empty, &planted, &redacted, &empty)?;
+        let chk = check_output(soft, run, "chain", kind, fmt, &bytes, &req, &empty, &planted, &redacted, &empty)?;
         match planted_of(fmt, &bytes, chk.chain.last().unwrap(), c.aseed, li, own) {
             Ok(p) => planted.extend(p),
             Err(e) => {
@@ -718,7 +762,7 @@ fn judge_chain(run: &Run, c: &Case) -> CaseResult {
     Ok(())
 }
 
-fn judge_merge(run: &Run, c: &MergeCase) -> CaseResult {
+fn judge_merge_inner(run: &Run, c: &MergeCase, soft: &Soft) -> CaseResult {
     let kind = KINDS[c.kind as usize % KINDS.len()];
     let a = asset(kind, c.aseed);
     let fmt = a.format;
@@ -735,7 +779,7 @@ fn judge_merge(run: &Run, c: &MergeCase) -> CaseResult {
         }
     };
     let mut planted = vec![];
-    let chk = check_output(run, "base", kind, fmt, &base, &[], &empty, &planted, &empty, &empty)?;
+    let chk = check_output(soft, run, "base", kind, fmt, &base, &[], &empty, &planted, &empty, &empty)?;
     match planted_of(fmt, &base, chk.chain.last().unwrap(), c.aseed, 0, own0) {
         Ok(p) => planted.extend(p),
         Err(e) => {
@@ -751,11 +795,11 @@ fn judge_merge(run: &Run, c: &MergeCase) -> CaseResult {
     let branch = |li: usize, own: u16, reds: &[String]| -> Result<(Vec<u8>, Vec<Planted>), Fail> {
         let b = match mk(&base, li, own, BuilderIntent::Edit, reds, vec![]) {
             Ok(Ok(b)) => b,
-            Ok(Err(e)) => return Err(Fail::new(format!("C20:allowed-redaction-sign-error:{}:edit", kinds_class(&planted, reds)), format!("branch {li} with redactions {reds:?}: {e}"))),
+            Ok(Err(e)) => return Err(Fail::new(format!("C20:allowed-redaction-sign-error:{}", kinds_class(&planted, reds)), format!("branch {li} with redactions {reds:?}: {e}"))),
             Err(p) => return Err(Fail::new(format!("C20:sign-panic:{}", vh::core::panic_site(&p)), p)),
         };
         let red: BTreeSet<String> = reds.iter().cloned().collect();
-        let chk = check_output(run, "chain", kind, fmt, &b, reds, &empty, &planted, &red, &empty)?;
+        let chk = check_output(soft, run, "chain", kind, fmt, &b, reds, &empty, &planted, &red, &empty)?;
         let p = planted_of(fmt, &b, chk.chain.last().unwrap(), c.aseed, li, own).map_err(|e| Fail::new("C20:harness-marker-mapping", e))?;
         Ok((b, p))
     };
@@ -774,8 +818,9 @@ fn judge_merge(run: &Run, c: &MergeCase) -> CaseResult {
     let d = match mk(prim, 3, bit(K_META), BuilderIntent::Edit, &r3, vec![(json!({"title": "second branch", "relationship": rel}), fmt.to_string(), sec.clone())]) {
         Ok(Ok(b)) => b,
         Ok(Err(e)) => {
+            let cls = kinds_class(&planted, &r3);
             return Err(Fail::new(
-                format!("C20:merge-sign-error:{}", if both { "both" } else if r12.is_empty() { "none" } else { "one" }),
+                if cls == "reserved-substring-label" { format!("C20:allowed-redaction-sign-error:{cls}") } else { format!("C20:merge-sign-error:{}", if both { "both" } else if r12.is_empty() { "none" } else { "one" }) },
                 format!("two ingredients sharing the base manifest (branch redactions {r1:?} / {r2:?}, own redactions {r3:?}, swap={}): sign failed: {e}", c.swap),
             ))
         }
@@ -792,7 +837,7 @@ fn judge_merge(run: &Run, c: &MergeCase) -> CaseResult {
             redacted.insert(u.clone());
         }
     }
-    check_output(run, "merge", kind, fmt, &d, &r3, &r12, &planted, &redacted, &dont_care)?;
+    check_output(soft, run, "merge", kind, fmt, &d, &r3, &r12, &planted, &redacted, &dont_care)?;
     Ok(())
 }
 
@@ -848,11 +893,32 @@ fn main() {
             });
         }
     }
+    // chains of depth 2 and 3 whose redactions hit several manifests; one case with the reserved-substring label
+    for v in 0..12u16 {
+        let deep = v % 2 == 1;
+        let mut layers = vec![
+            Layer { own: bit(K_NOTE) | bit(K_META) | bit(K_CBOR) | if v % 3 == 0 { bit(K_CTHUMB) } else { 0 }, update: false, redact: 0 },
+            Layer { own: bit(K_NOTE) | bit(K_CBOR), update: v % 4 == 1, redact: 1 << (v % 3) },
+            Layer { own: bit(K_NOTE) | bit(K_DUP), update: v % 4 == 2, redact: 0b0101 << (v % 2) },
+        ];
+        if deep {
+            layers.push(Layer { own: bit(K_META), update: v % 4 == 3, redact: 0b10011 });
+        }
+        enum_cases.push(Case { kind: (v % 3) as u8, aseed: (run.seed as u16) ^ (0x5A00 + v), layers, bad: 0, posthoc: (v % 4) as u8, posthoc_target: v as u8 });
+    }
+    enum_cases.push(Case {
+        kind: 0,
+        aseed: (run.seed as u16) ^ 0x7777,
+        layers: vec![Layer { own: 0x380 | bit(K_NOTE), update: false, redact: 0 }, Layer { own: 0, update: false, redact: 0b10 }],
+        bad: 0,
+        posthoc: 0,
+        posthoc_target: 0,
+    });
     let threads = if run.quick() { 6 } else { 12 };
     run.drive_enum_par("chain_enum", enum_cases, threads, |c| judge_chain(&run, c));
 
     // ---- random chains ----
-    let layer = (0u16..256, any::<bool>(), any::<u16>()).prop_map(|(own, update, redact)| Layer { own, update, redact });
+    let layer = (0u16..1024, any::<bool>(), any::<u16>()).prop_map(|(own, update, redact)| Layer { own, update, redact });
     let strat = (0u8..3, any::<u16>(), proptest::collection::vec(layer, 2..=4), 0u8..14, 0u8..8, any::<u8>()).prop_map(|(kind, aseed, layers, bad, posthoc, posthoc_target)| Case {
         kind,
         aseed,
@@ -862,11 +928,11 @@ fn main() {
         posthoc: if posthoc < 4 { 0 } else { posthoc - 4 },
         posthoc_target,
     });
-    run.drive_par("chain_random", run.scale(50, 3200), threads, strat, |c| judge_chain(&run, c));
+    run.drive_par("chain_random", run.scale(110, 3200), threads, strat, |c| judge_chain(&run, c));
 
     // ---- conflicting redactions through two ingredients ----
-    let strat = (0u8..3, any::<u16>(), 0u16..256, 0u16..64, 0u16..64, 0u16..64, 0u8..2, any::<bool>()).prop_map(|(kind, aseed, base_own, r1, r2, r3, rel, swap)| MergeCase { kind, aseed, base_own, r1, r2, r3, rel, swap });
-    run.drive_par("merge", run.scale(24, 800), threads, strat, |c| judge_merge(&run, c));
+    let strat = (0u8..3, any::<u16>(), 0u16..1024, 0u16..64, 0u16..64, 0u16..64, 0u8..2, any::<bool>()).prop_map(|(kind, aseed, base_own, r1, r2, r3, rel, swap)| MergeCase { kind, aseed, base_own, r1, r2, r3, rel, swap });
+    run.drive_par("merge", run.scale(40, 800), threads, strat, |c| judge_merge(&run, c));
 
     run.finish();
 }
